@@ -641,6 +641,22 @@ func validChain(s string, pe *errchain.PlError, m *model, rd rendered, own map[s
 			}
 		}
 	}
+	// (c') cycle reported in the other natural style: the root-cause entry IS the closing call,
+	// followed by the call sites outward (no separate entry for the root script)
+	if strings.Contains(strings.ToLower(pe.Err), "circular") || strings.Contains(strings.ToLower(pe.Err), "cycl") {
+		if st := siteAt(rd, e0.File, e0.Ln, e0.Col); st != nil && reach[e0.File] {
+			onChain := st.Target == e0.File
+			for _, e := range pe.PosChain[1:] {
+				if e.File == st.Target {
+					onChain = true
+				}
+			}
+			if onChain && walk(pe.PosChain[1:], e0.File, s, m, rd) == "" {
+				res.Probes["root_cause_cycle"]++
+				return ""
+			}
+		}
+	}
 	if len(reasons) == 0 {
 		return "its root cause is none of: error of a reachable broken script, missing callee at its use call, circular dependency"
 	}
